@@ -11,8 +11,8 @@ import (
 	"go/token"
 	"go/types"
 	"os"
-	"sync/atomic"
 	"strings"
+	"sync/atomic"
 	"unsafe"
 
 	"golang.org/x/tools/go/ssa"
@@ -973,7 +973,6 @@ func typeAssert(instr *ssa.TypeAssert, itf iface) value {
 	}
 	return v
 }
-
 
 // callBuiltin interprets a call to builtin fn with arguments args,
 // returning its result.
